@@ -29,6 +29,11 @@ CLAIMED = {
    note="Translator grammar trusted (cross-checked by the run); passive matrices only here (active ones share the same engine functions, exercised under C09); column-major band engines reachable only through T().",
    technique="Coq proofs over source-generated engine functions (translator) + exhaustive differential run + dense oracle",
    design="DESIGN.md §4 C17"),
+ "C20": dict(
+   text="Machine-checked proofs over the real numbers (standard-library real axioms) about the model of interp.h: the binary search ends on two consecutive knots that bracket the query, for increasing and decreasing coordinates (induction on fuel); strictly inside the range the result is the chord of that interval (the piecewise-linear interpolant), for any number of trailing values; at every knot (first, interior, last) and for every extrapolation policy the data value itself; outside the range the linear continuation / clamped end value / constant; the index-weight pairs of interp2d/3d bracket the query with weight in [0,1] and w*ya+(1-w)*yb is the same chord (tensor-product interpolant); option decoding. Tie: the extracted model on OCaml doubles is compared bit for bit with interp/interp2d/interp3d (all option words, both directions, passive and active data), and an exact rational oracle checks values, exception kinds and that the Jacobian w.r.t. the data equals the interpolation weights.",
+   note="Theorems over R: floating-point rounding measured (bit-identical to the model), not proved; nearest-neighbour ties and non-finite queries have no defined value (only no-crash checked); harness uses 0-1 trailing dimensions. The defect 'constant extrapolation returned at the end knots' was repaired (fix commit be2c4d7).",
+   technique="Coq proof over R (bracket invariant by induction, field identities, lra) + differential run + exact rational oracle",
+   design="DESIGN.md §4 C20"),
  "C13": dict(
    text="Machine-checked proof that the OpenMP Jacobian routines, modelled as an arbitrary execution order of ceil(k/M) blocks with private buffers, perform a permutation of the serial routine's writes (each cell produced by exactly one block, no re-association), so the resulting matrix is identical for every schedule and thread count; blocks write disjoint cells. Tie: harness built with -fopenmp, set_max_jacobian_threads(1..16), compared exactly with the model and the unit-vector passes; a guarded hook confirms several threads processed blocks.",
    note="Threads are modelled at block granularity (inside a block only private memory and disjoint output cells are touched - proved); the OpenMP runtime executing each iteration exactly once is trusted; hardware interleavings are exercised, not proved.",
